@@ -51,6 +51,7 @@ type zzExec struct {
 	scanC04  bool
 	nC03     int
 	secretsBroken bool
+	faultyHistory bool
 	ref      *zzExec // fault-free reference execution of the same program (C12)
 }
 
@@ -176,6 +177,9 @@ func (x *zzExec) run(prog []zzOp, planAt int, plan *faultdb.Plan) {
 		if i == planAt {
 			p = plan
 		}
+		if x.faultyHistory && x.r.T.Bool("hist.fault", 1, 4) {
+			p = &faultdb.Plan{Effect: faultdb.Fail, Call: x.r.T.Choose("hist.fault.call", 36), UntilCommit: true}
+		}
 		x.step(i, op, p)
 		if i == planAt && plan != nil {
 			return // a C12 run ends with the post-fault checks
@@ -218,7 +222,16 @@ func (x *zzExec) step(i int, op zzOp, plan *faultdb.Plan) {
 		x.calls = append(x.calls, ncalls)
 	}
 
-	if plan != nil {
+	if plan != nil && x.focus != "C12" {
+		// storage failures as part of the history (error paths of the focus property's operations)
+		if fired != "" {
+			r.Fault("storage-" + plan.Effect.String())
+			if x.abnormal(res.o) {
+				x.stopped = true // a panic or FATAL exit under a storage failure is process death: C12's subject
+				return
+			}
+		}
+	} else if plan != nil {
 		if fired == "" {
 			r.Count("fault-not-reached", 1)
 		} else {
@@ -378,7 +391,13 @@ func (x *zzExec) doNewKeystore(op zzOp, w *zzWallet, m *zzMW) zzRes {
 		if _, exists := m.KS[id]; exists {
 			x.fail("C01", "duplicate-accepted/NewKeystore", "NewKeystore returned the id of a keystore that already exists: %s", id)
 		}
-		m.KS[id] = &zzMK{ID: id, Remark: remark, SeedIdx: op.Seed, Keys: map[string]zzKey{}}
+		nk := &zzMK{ID: id, Remark: remark, SeedIdx: op.Seed, Keys: map[string]zzKey{}}
+		for _, old := range m.Issued {
+			if old.KS == id {
+				nk.Regressed = true // a deleted keystore re-created from its seed starts over
+			}
+		}
+		m.KS[id] = nk
 		m.Order = append(m.Order, id)
 		res.note = id
 		if x.needles != nil {
@@ -392,13 +411,17 @@ func (x *zzExec) doNextAddr(op zzOp, w *zzWallet, m *zzMW) zzRes {
 	id, ok := m.slot(op.Slot)
 	var mas []*ManagedAddress
 	var err error
-	o := x.e.call(func() { mas, err = w.kmc.NextAddresses(id, op.Internal, uint32(op.N)) })
+	n := uint32(op.N)
+	if op.N < 0 {
+		n = 1 << 31
+	}
+	o := x.e.call(func() { mas, err = w.kmc.NextAddresses(id, op.Internal, n) })
 	res := zzRes{o: o, err: err}
 	if x.abnormal(o) {
 		return res
 	}
 	must := mSucceed
-	if !ok {
+	if !ok || op.N < 0 {
 		must = mFail
 	}
 	x.verdict(op, must, err, "C06/unknown-keystore-accepted", "C06/unexpected-failure", "keystore exists")
@@ -840,6 +863,27 @@ func (x *zzExec) doImport(op zzOp, w *zzWallet, m *zzMW) zzRes {
 	}
 	// follow the implementation (also after an accepted tampered file, so that the run can go on)
 	nk := &zzMK{ID: id, Remark: ks.Remark, SeedIdx: -3, Keys: map[string]zzKey{}, NextExt: ks.NextExt, NextInt: ks.NextInt}
+	nk.Tainted = must != mSucceed
+	// an export is a snapshot: keys issued after it are legitimately forgotten by an import
+	for _, old := range m.Issued {
+		if old.KS == id {
+			found := false
+			for _, a := range ks.Addrs {
+				if a.Pub == old.Pub {
+					found = true
+				}
+			}
+			if !found {
+				nk.Regressed = true
+				if must == mSucceed && ex != nil {
+					if _, inExport := ex.KS.Keys[fmt.Sprintf("%d/%d", old.Branch, old.Index)]; inExport {
+						x.fail("C06", "ordinal-lost-after-import/ImportKeystore", "key %d/%d (%s) was issued before the export, but the imported keystore does not know it", old.Branch, old.Index, old.Pub)
+						x.fail("C05", "issued-key-lost-after-import/ImportKeystore", "key %d/%d (%s) was issued before the export, but the imported keystore does not hold it (it can no longer sign)", old.Branch, old.Index, old.Pub)
+					}
+				}
+			}
+		}
+	}
 	if ex != nil && id == ex.KS.ID {
 		nk.SeedIdx = ex.KS.SeedIdx
 	}
@@ -871,7 +915,7 @@ func (x *zzExec) doImport(op zzOp, w *zzWallet, m *zzMW) zzRes {
 		x.needles.refresh(x)
 	}
 	// C01: after unlocking, every one of those keys can sign
-	if x.focus == "C01" && must == mSucceed {
+	if (x.focus == "C01" || x.focus == "C05") && must == mSucceed {
 		x.signAll(op, w, m, nk)
 	}
 	res.note += " " + id
@@ -906,10 +950,12 @@ func (x *zzExec) signAll(op zzOp, w *zzWallet, m *zzMW, k *zzMK) {
 		o := x.e.call(func() { sig, err = w.kmc.SignHash(pub, digest[:]) })
 		if x.abnormal(o) || err != nil || sig == nil {
 			x.fail("C01", "imported-key-cannot-sign/ImportKeystore", "key %s of imported keystore cannot sign: %v", n, err)
+			x.fail("C05", "imported-key-cannot-sign/ImportKeystore", "key %s of imported keystore cannot sign: %v", n, err)
 			continue
 		}
 		if !sig.Verify(digest[:], pub) {
 			x.fail("C01", "imported-key-bad-signature/ImportKeystore", "signature of imported key %s does not verify under its public key", n)
+			x.fail("C05", "imported-key-bad-signature/ImportKeystore", "signature of imported key %s does not verify under its public key", n)
 		}
 	}
 	if wasLocked {
@@ -954,7 +1000,13 @@ func (x *zzExec) pickKey(op zzOp, m *zzMW) (zzKey, bool) {
 		return k, false
 	}
 	cur, ok := ks.Keys[fmt.Sprintf("%d/%d", k.Branch, k.Index)]
-	return k, ok && cur.Pub == k.Pub
+	if ks.Tainted || ks.Regressed {
+		// the keystore came from a tampered file the importer accepted (known finding) or from an
+		// older export: follow what the wallet holds
+		return k, ok && cur.Pub == k.Pub
+	}
+	// a key the wallet issued for a keystore it still holds is owned
+	return k, true
 }
 
 func (x *zzExec) doSign(op zzOp, w *zzWallet, m *zzMW) zzRes {
